@@ -1,12 +1,427 @@
 import RtcVerif.Model.C07
+import RtcVerif.Proofs.C07Lemmas
+import Mathlib.Data.List.Pairwise
 /-!
 # C07 — ensemble members are isolated; controls are shared exactly per scenario tree
+
+Property theorems over the models of `Model/C07.lean`: the recursive clustering of
+`ControlTreeMixin` with an **arbitrary** distance table per branching level, the memoising
+control-index allocator (tree, default sharing, `PlanningMixin`) and the parameter
+classification / per-member data routing of `transcribe()`.  All sizes are unbounded: any
+ensemble size `E`, any `k`, any number of branching times (sorted or not), any time stamps.
+Helper lemmas: `Proofs/C07Lemmas.lean`.
 -/
 namespace RtcVerif.C07
 
-/-- a node has exactly `k` child slots (hence at most `k` non-empty children) -/
-theorem children_length (d : Dist) (k E : Nat) (ms : List Nat) :
-    (children d k E ms).length = k := by
-  simp [children]
+/-! ## the scenario tree -/
+
+/-- **The children partition the parent's member set**: every member of the parent is in exactly
+    one child, the children contain nothing else, and no child lists a member twice.  Holds for
+    every distance table (no symmetry, sign or metric assumption). -/
+theorem tree_partition (d : Dist) (k E : Nat) (ms : List Nat) (hms : ∀ a ∈ ms, a < E) (hk : 1 ≤ k) :
+    (∀ a, a ∈ ms ↔ ∃ i, i < k ∧ a ∈ ((children d k E ms)[i]?).getD []) ∧
+    (∀ (i j a : Nat), a ∈ ((children d k E ms)[i]?).getD [] →
+      a ∈ ((children d k E ms)[j]?).getD [] → i = j) ∧
+    (∀ i : Nat, (((children d k E ms)[i]?).getD []).Nodup) := by
+  refine ⟨?_, ?_, fun i => child_nodup d k E ms i⟩
+  · intro a
+    constructor
+    · intro ha
+      obtain ⟨_, _, _, hlen, hne⟩ := selectReps_spec d ms k
+      have hlt := childIdx_lt d (selectReps d ms k) a (hne (List.ne_nil_of_mem ha) hk)
+      refine ⟨childIdx d (selectReps d ms k) a, by omega, ?_⟩
+      rw [mem_child_iff d k E ms hms]
+      exact ⟨ha, by omega, rfl⟩
+    · rintro ⟨i, _, hi⟩
+      exact ((mem_child_iff d k E ms hms i a).1 hi).1
+  · intro i j a hi hj
+    have h1 := ((mem_child_iff d k E ms hms i a).1 hi).2.2
+    have h2 := ((mem_child_iff d k E ms hms j a).1 hj).2.2
+    omega
+
+/-- **A node has at most `k` children**: exactly `k` child slots exist, at most `k` of them are
+    non-empty, and no member is ever placed in a slot `i >= k`. -/
+theorem tree_at_most_k (d : Dist) (k E : Nat) (ms : List Nat) (hms : ∀ a ∈ ms, a < E) :
+    (children d k E ms).length = k ∧
+    ((children d k E ms).filter (fun ch => !ch.isEmpty)).length ≤ k ∧
+    (∀ i, k ≤ i → ((children d k E ms)[i]?).getD [] = []) := by
+  have hlen : (children d k E ms).length = k := by simp [children]
+  refine ⟨hlen, ?_, ?_⟩
+  · calc ((children d k E ms).filter (fun ch => !ch.isEmpty)).length
+        ≤ (children d k E ms).length := List.length_filter_le _ _
+      _ = k := hlen
+  · intro i hi
+    apply List.eq_nil_iff_forall_not_mem.2
+    intro a ha
+    have := ((mem_child_iff d k E ms hms i a).1 ha).2.1
+    omega
+
+/-- the number of representatives (= non-empty children) never exceeds `k`, they are distinct
+    members of the parent, and each later one has a positive distance to every earlier one -/
+theorem tree_representatives (d : Dist) (ms : List Nat) (k : Nat) :
+    (selectReps d ms k).length ≤ k ∧ (selectReps d ms k).Nodup ∧
+    (∀ r ∈ selectReps d ms k, r ∈ ms) ∧
+    (selectReps d ms k).Pairwise (fun j c => 0 < d j c) := by
+  obtain ⟨h1, h2, h3, h4, _⟩ := selectReps_spec d ms k
+  exact ⟨h4, h2, h1, h3⟩
+
+/-- **Every member is in exactly one branch per depth** (this is what makes the code's scan over
+    all branches in `discretize_control` find one block per depth): the branch `pathOf m L`
+    contains `m`, and any branch that contains `m` is that one. -/
+theorem tree_branch_unique (dist : Nat → Dist) (k E m : Nat) (hk : 1 ≤ k) (hm : m < E) (L : Nat) :
+    m ∈ membersOf dist k E (pathOf dist k E m L) ∧
+    ∀ p, p.length = L → m ∈ membersOf dist k E p → p = pathOf dist k E m L := by
+  refine ⟨mem_pathOf dist k E m hk hm L, ?_⟩
+  intro p hp hmem
+  have := pathOf_unique dist k E m p hmem
+  rw [hp] at this
+  exact this
+
+/-- **Zero distance is never separated** (one node): two members of a branch with distance 0
+    whose rows of the distance table agree (as they do for identical forecasts) are placed in
+    the same child, whatever the other distances, `k` and tie-breaking do. -/
+theorem zero_distance_same_child (d : Dist) (k : Nat) (ms : List Nat) (a b : Nat)
+    (hsym : ∀ x y, d x y = d y x) (hnn : ∀ x y, 0 ≤ d x y)
+    (hrow : ∀ c, d a c = d b c) (hab : d a b = 0) :
+    childIdx d (selectReps d ms k) a = childIdx d (selectReps d ms k) b := by
+  obtain ⟨_, hnd, hsep, _, _⟩ := selectReps_spec d ms k
+  generalize selectReps d ms k = reps at *
+  have hba : d b a = 0 := by rw [hsym]; exact hab
+  have hsymR : Std.Symm (fun j c => 0 < d j c) :=
+    ⟨fun x y h => by show 0 < d y x; rw [hsym]; exact h⟩
+  -- a representative other than `a` or `b` at distance 0 from one of them cannot exist before it
+  have key : ∀ (x y : Nat), (∀ c, d x c = d y c) → d y x = 0 → x ∈ reps → y ∉ reps →
+      childIdx d reps x = childIdx d reps y := by
+    intro x y hxy hyx hx hy
+    unfold childIdx
+    rw [if_pos (by simpa using hx)]
+    have hyc : reps.contains y = false := by simpa using hy
+    rw [hyc]
+    simp only [Bool.false_eq_true, if_false]
+    unfold nearestRep
+    obtain ⟨l1, l2, rfl⟩ := List.append_of_mem hx
+    have hp := hsep
+    unfold RepsSep at hp
+    rw [List.pairwise_append] at hp
+    have hfirst : argminFirst (fun r => d y r) (l1 ++ x :: l2) = some x := by
+      apply argminFirst_eq_of_first_min
+      · intro r hr
+        have : 0 < d r x := hp.2.2 r hr x (List.mem_cons_self)
+        show d y x < d y r
+        rw [hyx, ← hxy r, hsym x r]
+        exact this
+      · intro r _
+        show d y x ≤ d y r
+        rw [hyx]
+        exact hnn y r
+    rw [hfirst]
+  by_cases ha : a ∈ reps <;> by_cases hb : b ∈ reps
+  · by_cases hab' : a = b
+    · rw [hab']
+    · have hs : reps.Pairwise (fun j c => 0 < d j c) := hsep
+      have := List.Pairwise.forall hs ha hb hab'
+      rw [hab] at this
+      exact absurd this (lt_irrefl 0)
+  · exact key a b hrow hba ha hb
+  · exact (key b a (fun c => (hrow c).symm) hab hb ha).symm
+  · unfold childIdx
+    have h1 : reps.contains a = false := by simpa using ha
+    have h2 : reps.contains b = false := by simpa using hb
+    rw [h1, h2]
+    simp only [Bool.false_eq_true, if_false]
+    unfold nearestRep
+    rw [argminFirst_congr (fun r => d a r) (fun r => d b r) reps (fun r _ => hrow r)]
+
+/-- for a pseudo-metric (symmetric, non-negative, triangle inequality — what a sum of norms of
+    forecast differences is) distance 0 already forces equal rows -/
+theorem pseudometric_rows (d : Dist) (a b : Nat) (hsym : ∀ x y, d x y = d y x)
+    (htri : ∀ x y z, d x z ≤ d x y + d y z) (hab : d a b = 0) : ∀ c, d a c = d b c := by
+  intro c
+  have h1 := htri a b c
+  have h2 := htri b a c
+  have hba : d b a = 0 := by rw [hsym]; exact hab
+  rw [hab] at h1
+  rw [hba] at h2
+  linarith
+
+/-- **Zero distance on the deciding segment is never separated** (tree level): two members in the
+    same branch at depth `L` whose distance on the segment that decides the children of that
+    branch is 0 are in the same branch at depth `L + 1`. -/
+theorem zero_distance_not_separated (dist : Nat → Dist) (k E a b L : Nat)
+    (hsym : ∀ x y, dist L x y = dist L y x) (hnn : ∀ x y, 0 ≤ dist L x y)
+    (htri : ∀ x y z, dist L x z ≤ dist L x y + dist L y z) (hab : dist L a b = 0)
+    (hsame : pathOf dist k E a L = pathOf dist k E b L) :
+    pathOf dist k E a (L + 1) = pathOf dist k E b (L + 1) := by
+  rw [pathOf_succ, pathOf_succ, ← hsame]
+  congr 1
+  exact zero_distance_same_child (dist L) k _ a b hsym hnn
+    (pseudometric_rows (dist L) a b hsym htri hab) hab
+
+/-! ## control indices under the tree -/
+
+/-- **Two members share a control entry at a time stamp exactly when they are in the same branch
+    at that time**: `ctrlIdx m1 t = ctrlIdx m2 t ↔ branchAt m1 t = branchAt m2 t`, for every
+    distance table, `k`, branching times and time stamps of the control variable. -/
+theorem share_iff_same_branch (c : TreeCfg) (ts : List Rat) (count0 m1 m2 i L : Nat)
+    (hm1 : m1 < c.E) (hm2 : m2 < c.E) (hi : i < ts.length)
+    (hL : levelAt c.t0 c.bts ts[i] = some L) :
+    treeIdx c ts count0 m1 i = treeIdx c ts count0 m2 i ↔ c.path m1 L = c.path m2 L := by
+  obtain ⟨hLlt, hin, _⟩ := lastLevel_some _ _ _ hL
+  obtain ⟨hinv, hpres⟩ := treeAlloc_spec c ts count0
+  obtain ⟨s1, hs1⟩ := hpres m1 L hm1 hLlt
+  obtain ⟨s2, hs2⟩ := hpres m2 L hm2 hLlt
+  have hget : ts.getD i 0 = ts[i] := by simp [List.getD_eq_getElem?_getD, hi]
+  unfold treeIdx
+  rw [hget, hL]
+  simp only [hs1, hs2, Option.getD_some]
+  constructor
+  · intro heq
+    by_contra hne
+    have hrank := rankIn_lt_segCount c.t0 c.bts L ts i hi hin
+    have := hinv.disj _ _ s1 s2 hs1 hs2 hne
+    simp only [TreeCfg.path, pathOf_length] at this
+    omega
+  · intro heq
+    rw [heq] at hs1
+    rw [hs1] at hs2
+    cases hs2
+    rfl
+
+/-- **Branches only split**: if two members share a control entry at a time stamp they share it
+    at every earlier time stamp of that variable (no re-merging). -/
+theorem sharing_prefix_closed (c : TreeCfg) (ts : List Rat) (count0 m1 m2 i j : Nat)
+    (hm1 : m1 < c.E) (hm2 : m2 < c.E) (hi : i < ts.length) (hj : j < ts.length)
+    (ht0 : c.t0 ≤ ts[j]) (hji : ts[j] ≤ ts[i])
+    (hshare : treeIdx c ts count0 m1 i = treeIdx c ts count0 m2 i) :
+    treeIdx c ts count0 m1 j = treeIdx c ts count0 m2 j := by
+  obtain ⟨L, hL⟩ := levelAt_isSome c.t0 c.bts ts[i] (le_trans ht0 hji)
+  obtain ⟨L', hL'⟩ := levelAt_isSome c.t0 c.bts ts[j] ht0
+  have hle : L' ≤ L := levelAt_mono c.t0 c.bts ts[i] ts[j] L L' hji hL hL'
+  rw [share_iff_same_branch c ts count0 m1 m2 i L hm1 hm2 hi hL] at hshare
+  rw [share_iff_same_branch c ts count0 m1 m2 j L' hm1 hm2 hj hL']
+  exact pathOf_prefix c.dist c.k c.E m1 m2 L L' hle hshare
+
+/-- **All members share every control entry before the first branching time** (more generally:
+    wherever the level is 0). -/
+theorem shared_before_first_branching (c : TreeCfg) (ts : List Rat) (count0 m1 m2 i : Nat)
+    (hm1 : m1 < c.E) (hm2 : m2 < c.E) (hi : i < ts.length)
+    (hL : levelAt c.t0 c.bts ts[i] = some 0) :
+    treeIdx c ts count0 m1 i = treeIdx c ts count0 m2 i := by
+  rw [share_iff_same_branch c ts count0 m1 m2 i 0 hm1 hm2 hi hL]
+  rfl
+
+/-- before the first branching time the level is 0 (branching times given in increasing order:
+    only the first one matters here) -/
+theorem level_zero_before_first (t0 : Rat) (bts : List Rat) (t : Rat) (ht0 : t0 ≤ t)
+    (hbefore : ∀ b ∈ bts, t < b) : levelAt t0 bts t = some 0 := by
+  obtain ⟨L, hL⟩ := levelAt_isSome t0 bts t ht0
+  obtain ⟨hlt, hin, _⟩ := lastLevel_some _ _ _ hL
+  cases L with
+  | zero => exact hL
+  | succ L =>
+    exfalso
+    have hlo := inSeg_lo t0 bts (L + 1) t hin
+    simp only [segLo] at hlo
+    have hLlt : L < bts.length := by omega
+    rw [List.getD_eq_getElem?_getD, List.getElem?_eq_getElem hLlt] at hlo
+    have := hbefore bts[L] (List.getElem_mem hLlt)
+    simp only [Option.getD_some] at hlo
+    linarith
+
+/-- **Indices stay in range, and the `int16` storage is a precondition** (finding F10): every
+    entry is below the running count, so under `count <= 2^15` every stored value fits into
+    `int16`; beyond that NumPy rejects the input with `OverflowError`. -/
+theorem indices_in_range (c : TreeCfg) (ts : List Rat) (count0 m i L : Nat)
+    (hm : m < c.E) (hi : i < ts.length) (hL : levelAt c.t0 c.bts ts[i] = some L) :
+    count0 ≤ (treeAlloc c ts count0).count ∧
+    treeIdx c ts count0 m i < (treeAlloc c ts count0).count ∧
+    (int16Ok (treeAlloc c ts count0).count = true → treeIdx c ts count0 m i ≤ 32767) := by
+  obtain ⟨hLlt, hin, _⟩ := lastLevel_some _ _ _ hL
+  obtain ⟨hinv, hpres⟩ := treeAlloc_spec c ts count0
+  obtain ⟨s, hs⟩ := hpres m L hm hLlt
+  have hget : ts.getD i 0 = ts[i] := by simp [List.getD_eq_getElem?_getD, hi]
+  have hrank := rankIn_lt_segCount c.t0 c.bts L ts i hi hin
+  have hb := hinv.bound _ s hs
+  simp only [TreeCfg.path, pathOf_length] at hb
+  have hlt : treeIdx c ts count0 m i < (treeAlloc c ts count0).count := by
+    unfold treeIdx
+    rw [hget, hL]
+    simp only [hs, Option.getD_some]
+    omega
+  refine ⟨?_, hlt, ?_⟩
+  · obtain ⟨_, _, _, h4⟩ := reqAll_spec (fun p : List Nat => segCount c.t0 c.bts p.length ts)
+      (treeReqs c ts) ⟨count0, []⟩ (inv_init _ count0) (treeReqs_consistent c ts)
+    exact h4
+  · intro h16
+    simp only [int16Ok, decide_eq_true_eq] at h16
+    omega
+
+/-! ## default sharing and planning -/
+
+/-- **Without the tree all members have identical control index lists** (one block per
+    variable, allocated when member 0 is processed and returned from the cache afterwards). -/
+theorem default_sharing (E n count0 m1 m2 i : Nat) :
+    flatIdx .shared E n count0 m1 i = flatIdx .shared E n count0 m2 i := rfl
+
+/-- the shared block is a block: member-independent, consecutive, below the new count -/
+theorem default_block (E n count0 m i : Nat) (hE : 0 < E) (hi : i < n) :
+    flatIdx .shared E n count0 m i = count0 + i ∧
+    flatIdx .shared E n count0 m i < (flatAlloc .shared E n count0).count := by
+  obtain ⟨hinv, hp, hex, _⟩ := reqAll_spec (fun _ : Option Nat => n) (flatReqs .shared E n)
+    ⟨count0, []⟩ (inv_init _ count0) (flatReqs_consistent .shared E n)
+  -- the first request allocates at `count0`, and that entry persists
+  have hfirst : lookup (flatAlloc .shared E n count0).cache none = some count0 := by
+    unfold flatAlloc
+    obtain ⟨E', rfl⟩ : ∃ E', E = E' + 1 := ⟨E - 1, by omega⟩
+    have : flatReqs .shared (E' + 1) n = (none, n) :: List.replicate E' (none, n) := by
+      simp [flatReqs, List.map_const', List.replicate_succ]
+    rw [this]
+    simp only [reqAll]
+    obtain ⟨_, q2, _, _⟩ := reqAll_spec (fun _ : Option Nat => n)
+      (List.replicate E' ((none : Option Nat), n))
+      (req ⟨count0, []⟩ none n).1
+      ((req_spec (fun _ : Option Nat => n) ⟨count0, []⟩ (inv_init _ count0) none).1)
+      (by intro r hr; rw [List.eq_of_mem_replicate hr])
+    apply q2
+    simp [req, lookup_nil, lookup_cons]
+  have hb := hinv.bound none count0 hfirst
+  unfold flatIdx
+  simp only [hfirst, Option.getD_some]
+  refine ⟨trivial, ?_⟩
+  unfold flatAlloc at hb ⊢
+  omega
+
+/-- **Planning**: a planning variable is shared by all members (`default_sharing`), every other
+    control gets a block per member, and the blocks of two different members are disjoint. -/
+theorem planning (E n count0 m1 m2 i j : Nat) (hm1 : m1 < E) (hm2 : m2 < E) (hne : m1 ≠ m2)
+    (hi : i < n) (hj : j < n) :
+    flatIdx .perMember E n count0 m1 i ≠ flatIdx .perMember E n count0 m2 j := by
+  obtain ⟨hinv, _, hex, _⟩ := reqAll_spec (fun _ : Option Nat => n) (flatReqs .perMember E n)
+    ⟨count0, []⟩ (inv_init _ count0) (flatReqs_consistent .perMember E n)
+  have hmem : ∀ m, m < E → ((some m : Option Nat), n) ∈ flatReqs .perMember E n := by
+    intro m hm
+    simp only [flatReqs, List.mem_map, List.mem_range]
+    exact ⟨m, hm, by simp⟩
+  obtain ⟨s1, hs1⟩ := hex _ (hmem m1 hm1)
+  obtain ⟨s2, hs2⟩ := hex _ (hmem m2 hm2)
+  have hd := hinv.disj (some m1) (some m2) s1 s2 hs1 hs2 (by simpa using hne)
+  unfold flatIdx
+  simp only
+  unfold flatAlloc
+  rw [hs1, hs2]
+  simp only [Option.getD_some]
+  omega
+
+/-! ## isolation of the ensemble members -/
+
+/-- the repaired classification is semantically invisible: the parameter value that member `m`'s
+    rows are evaluated with is member `m`'s own, whatever the other members' values are
+    (including values that coincide for some members or equal 0 or 1) -/
+theorem effParam_own (P : List (List Rat)) (dyn : List Bool) (m i : Nat) (hm : m < P.length) :
+    effParam isConstParam P dyn m i = (P.getD m []).getD i 0 := by
+  unfold effParam
+  split
+  · rename_i hc
+    unfold isConstParam at hc
+    simp only [Bool.and_eq_true, Bool.or_eq_true, beq_iff_eq, List.all_eq_true] at hc
+    cases P with
+    | nil => simp at hm
+    | cons r0 rest =>
+      cases m with
+      | zero => simp
+      | succ m =>
+        simp only [List.length_cons] at hm
+        have hm' : m < rest.length := by omega
+        rcases hc.1 with h1 | hall
+        · simp only [List.length_cons] at h1
+          omega
+        · have := hall rest[m] (by simp [List.getElem_mem])
+          have e : (r0 :: rest).getD (m + 1) [] = rest[m] := by
+            simp [List.getD_eq_getElem?_getD, hm']
+          simp only [List.headD_cons] at this ⊢
+          rw [e, this]
+  · rfl
+
+/-- the data routed into member `m`'s segment are member `m`'s own data -/
+theorem routed_own (I : Inst) (m : Nat) (md : MemberData) (h : I.members[m]? = some md) :
+    routed I m = some md := by
+  unfold routed
+  rw [h]
+  simp only
+  obtain ⟨hm, hmd⟩ := List.getElem?_eq_some_iff.1 h
+  have hP : I.P.getD m [] = md.params := by
+    simp [Inst.P, List.getD_eq_getElem?_getD, hm, hmd]
+  have hparams : (List.range md.params.length).map (effParam isConstParam I.P I.dyn m) = md.params := by
+    apply List.ext_getElem
+    · simp
+    · intro i h1 h2
+      simp only [List.getElem_map, List.getElem_range]
+      rw [effParam_own I.P I.dyn m i (by simpa [Inst.P] using hm), hP]
+      simp [List.getD_eq_getElem?_getD, h2]
+  rw [hparams]
+
+/-- **Non-interference**: for two instances that agree on member `m`'s own data (parameters,
+    constant inputs, history, probability, bounds), member `m`'s NLP segment — rows, bounds and
+    objective term, an arbitrary function `build` of the routed data and of the member's decoded
+    trajectory — is the same, whatever all other members' data are (ensemble sizes may differ). -/
+theorem C07_non_interference {Traj Seg : Type} (build : MemberData → Traj → Seg) (I I' : Inst)
+    (m : Nat) (h : I.members[m]? = I'.members[m]?) (traj : Traj) :
+    memberSegment build I m traj = memberSegment build I' m traj := by
+  unfold memberSegment
+  cases hm : I.members[m]? with
+  | none =>
+    have h' : I'.members[m]? = none := by rw [← h, hm]
+    simp [routed, hm, h']
+  | some md =>
+    have h' : I'.members[m]? = some md := by rw [← h, hm]
+    rw [routed_own I m md hm, routed_own I' m md h']
+
+/-- the same as a function of the member's own data only -/
+theorem segment_depends_on_own_data {Traj Seg : Type} (build : MemberData → Traj → Seg) (I : Inst)
+    (m : Nat) (md : MemberData) (h : I.members[m]? = some md) (traj : Traj) :
+    memberSegment build I m traj = some (build md traj) := by
+  unfold memberSegment
+  rw [routed_own I m md h]
+  rfl
+
+/-- the classification on the unchanged tree (finding F1, repaired in 1c868dc) did interfere:
+    with `p = (1, 2)` member 1 was transcribed with member 0's value -/
+theorem legacy_interference_witness :
+    effParam isConstParamLegacy [[1], [2]] [] 1 0 = 1 ∧
+    effParam isConstParam [[1], [2]] [] 1 0 = 2 ∧
+    effParam isConstParamLegacy [[0], [5]] [] 1 0 = 0 := by
+  decide +kernel
+
+/-! ## non-vacuity: concrete instances meeting the hypotheses -/
+
+/-- a 4-member example: distances on the first segment -/
+def exDist : Dist := fun a b =>
+  match a, b with
+  | 0, 1 => 1 | 1, 0 => 1
+  | 0, 2 => 5 | 2, 0 => 5
+  | 0, 3 => 5 | 3, 0 => 5
+  | 1, 2 => 4 | 2, 1 => 4
+  | 1, 3 => 4 | 3, 1 => 4
+  | _, _ => 0
+
+example : children exDist 2 4 [0, 1, 2, 3] = [[0, 1], [2, 3]] := by decide +kernel
+
+-- members 2 and 3 have distance 0 and equal rows: never separated, even with k = 3
+example : children exDist 3 4 [0, 1, 2, 3] = [[0], [2, 3], [1]] := by decide +kernel
+
+def exCfg : TreeCfg := ⟨fun _ => exDist, 2, 4, 0, [1, 2]⟩
+
+-- share at t = 0 (level 0), members 0 and 2 split from t = 1 on, members 2 and 3 never
+example : (List.range 4).map (fun m => (List.range 3).map (treeIdx exCfg [0, 1, 2] 0 m))
+    = [[0, 1, 2], [0, 1, 3], [0, 4, 5], [0, 4, 5]] := by decide +kernel
+
+example : levelAt exCfg.t0 exCfg.bts 1 = some 1 ∧ exCfg.path 0 1 ≠ exCfg.path 2 1 := by
+  decide +kernel
+
+example : (List.range 3).map (fun m => (List.range 2).map (flatIdx .perMember 3 2 7 m))
+    = [[7, 8], [9, 10], [11, 12]] := by decide +kernel
+
+example : routed ⟨[⟨[1, 3], [], [], 1, [], []⟩, ⟨[2, 3], [], [], 1, [], []⟩], []⟩ 1
+    = some ⟨[2, 3], [], [], 1, [], []⟩ := by decide +kernel
 
 end RtcVerif.C07
